@@ -14,7 +14,6 @@ package main
 
 import (
 	"fmt"
-	"io"
 	"net"
 	"os"
 	"runtime"
@@ -99,8 +98,9 @@ type cmd struct {
 }
 
 type registry struct {
-	mu sync.Mutex
-	h  map[uint32]chan cmd
+	mu   sync.Mutex
+	h    map[uint32]chan cmd
+	read map[uint32]int // bytes the handlers got from their request bodies since the last event
 }
 
 var reg *registry
@@ -121,7 +121,17 @@ func handler(w http.ResponseWriter, r *http.Request) {
 	for c := range ch {
 		switch c.kind {
 		case 'r':
-			io.ReadFull(r.Body, buf[:c.n])
+			// io.ReadFull, with every partial read accounted for as soon as it returns
+			for rem := c.n; rem > 0; {
+				n, err := r.Body.Read(buf[:rem])
+				myReg.mu.Lock()
+				myReg.read[id] += n
+				myReg.mu.Unlock()
+				rem -= n
+				if err != nil {
+					break
+				}
+			}
 		case 'w':
 			w.Write(buf[:c.n])
 			w.(http.Flusher).Flush()
@@ -144,7 +154,7 @@ func atoi(s string) (uint32, bool) {
 
 // render groups what arrived during one event by stream id (0 = connection), keeps the arrival order inside a
 // group and merges the WINDOW_UPDATEs of a group into one token (their split depends on read sizes only).
-func render(fs []spdy.Frame) string {
+func render(fs []spdy.Frame, reads map[uint32]int) string {
 	type tok struct {
 		id  uint32
 		s   string
@@ -186,6 +196,17 @@ func render(fs []spdy.Frame) string {
 			toks = append(toks, &tok{id: 0, s: fmt.Sprintf("other(%T)", g)})
 		}
 	}
+	// what the handlers consumed (observed in the handler, not on the wire): last token of the stream's group
+	rids := make([]int, 0, len(reads))
+	for id := range reads {
+		rids = append(rids, int(id))
+	}
+	sort.Ints(rids)
+	for _, id := range rids {
+		if n := reads[uint32(id)]; n > 0 {
+			toks = append(toks, &tok{id: uint32(id), s: fmt.Sprintf("read(%d,%d)", id, n)})
+		}
+	}
 	sort.SliceStable(toks, func(i, j int) bool { return toks[i].id < toks[j].id })
 	var out []string
 	for _, t := range toks {
@@ -206,7 +227,7 @@ func execSv(toks []string) string {
 	if !ok || maxS == 0 {
 		return "bad-op"
 	}
-	reg = &registry{h: map[uint32]chan cmd{}}
+	reg = &registry{h: map[uint32]chan cmd{}, read: map[uint32]int{}}
 	myReg := reg
 	var panicMu sync.Mutex
 	panicMsg := ""
@@ -218,7 +239,8 @@ func execSv(toks []string) string {
 		panicMu.Unlock()
 	})
 	cc, sc := net.Pipe()
-	done := spdy.VerifC40Serve(sc, http.HandlerFunc(handler), maxS)
+	done, graceCh := spdy.VerifC40ServeGraceful(sc, http.HandlerFunc(handler), maxS)
+	graceDone := false
 	fr, err := spdy.NewFramer(cc, cc)
 	if err != nil {
 		return "newframer-failed"
@@ -331,6 +353,12 @@ func execSv(toks []string) string {
 				ch <- cmd{ev[0], int(n[1])}
 			}
 			myReg.mu.Unlock()
+		case ev[0] == 'G' && len(n) == 1:
+			// graceful shutdown of the server (bfe closes http.Server.CloseNotifyCh): once per connection
+			if !graceDone {
+				graceDone = true
+				close(graceCh)
+			}
 		case ev[0] == 'f' && len(n) == 1:
 			myReg.mu.Lock()
 			if ch, ok := myReg.h[n[0]]; ok {
@@ -353,7 +381,11 @@ func execSv(toks []string) string {
 		cv.frames = nil
 		closed := cv.closed
 		cv.mu.Unlock()
-		out = append(out, render(got))
+		myReg.mu.Lock()
+		reads := myReg.read
+		myReg.read = map[uint32]int{}
+		myReg.mu.Unlock()
+		out = append(out, render(got, reads))
 		panicMu.Lock()
 		pm := panicMsg
 		panicMu.Unlock()
@@ -364,7 +396,7 @@ func execSv(toks []string) string {
 		}
 		goaway := false
 		for _, g := range got {
-			if _, ok := g.(*spdy.GoAwayFrame); ok {
+			if ga, ok := g.(*spdy.GoAwayFrame); ok && ga.Status != spdy.GoAwayOK {
 				goaway = true
 			}
 		}
@@ -435,6 +467,9 @@ func gen(r *vh.Rand) string {
 	case 2:
 		return fmt.Sprintf("ft %d %d %d", i32(r), i32(r), i32(r))
 	}
+	if r.Chance(1, 5) {
+		return genUpload(r)
+	}
 	maxS := r.Range(1, 4)
 	n := r.Range(1, 12)
 	p := []string{"sv", strconv.Itoa(maxS)}
@@ -495,11 +530,44 @@ func gen(r *vh.Rand) string {
 		case 14, 15, 16:
 			p = append(p, fmt.Sprintf("w%d,%d", pickID(), pick(r, 0, 1, 10, 4096, 4097, 16384, 16385, 40000, 65536, 70000, 131072)))
 		default:
-			p = append(p, fmt.Sprintf("f%d", pickID()))
+			if r.Chance(1, 3) {
+				p = append(p, "G0")
+			} else {
+				p = append(p, fmt.Sprintf("f%d", pickID()))
+			}
 		}
 	}
 	return strings.Join(p, " ")
 }
+
+// genUpload: an upload in progress (DATA, handler reads, more DATA), on one or two streams, with the server's
+// graceful shutdown somewhere in between: windows must keep being replenished by what the handler consumes.
+func genUpload(r *vh.Rand) string {
+	p := []string{"sv", "3", "S1,0"}
+	ids := []int{1}
+	if r.Chance(1, 3) {
+		p = append(p, "S3,0")
+		ids = append(ids, 3)
+	}
+	grace := r.Intn(7)
+	for i, n := 0, r.Range(3, 9); i < n; i++ {
+		id := ids[r.Intn(len(ids))]
+		if i == grace {
+			p = append(p, "G0")
+		}
+		switch r.Intn(7) {
+		case 0, 1, 2:
+			p = append(p, fmt.Sprintf("D%d,%d,%d", id, pick(r, 1, 100, 16384, 30000, 40000, 65536), r.Intn(8)/7))
+		case 3, 4, 5:
+			p = append(p, fmt.Sprintf("r%d,%d", id, pick(r, 1, 100, 16384, 40000, 65536, 131072)))
+		default:
+			p = append(p, pick2(r, fmt.Sprintf("w%d,%d", id, pick(r, 0, 10, 20000)), fmt.Sprintf("R%d,5", id), "P1", fmt.Sprintf("f%d", id)))
+		}
+	}
+	return strings.Join(p, " ")
+}
+
+func pick2(r *vh.Rand, xs ...string) string { return xs[r.Intn(len(xs))] }
 
 func main() { vh.Main(gen, exec) }
 
